@@ -52,19 +52,8 @@ def _m_d20a(case, observed, finding):
                for st, f in zip(case['disk'][:i], case['files'][:i]))
 
 
-def _m_d20b(case, observed, finding):
-    """D20b: partial_size() of the *empty* path on a torrent that is not multi-file (single-file, or no content):
-    the error path itself crashes (os.path.join() without arguments -> TypeError) instead of raising PathError.
-    Narrow: a partial_size lookup whose component list is empty, the object's metainfo at that moment has no file
-    list, and the observation is exactly that TypeError."""
-    op = case.get('lean_op') or {}
-    meta = case.get('meta') or {}
-    return (op.get('k') == 'lookup' and op.get('p') == [] and (meta.get('single') or meta.get('files') == [])
-            and observed == {'err': ['internal:TypeError']})
-
-
-# D20a was repaired in /repo (884cab4); its witness stays as a regression case
-MATCHERS = {'D20b_partial_size_empty_path': _m_d20b}
+# D20a (884cab4) and D20b (8785da6) were repaired in /repo; their witnesses stay as regression cases
+MATCHERS = {}
 
 RULE = ('case = (layout, per-file disk state, path shape, pieces kind, callback); exhaustive: every '
         'assignment of {ok, missing, -1, +1, dir(total = size), dir(total != size)} to <= 3 (thorough: 4) '
